@@ -32,6 +32,8 @@ type Knobs struct {
 	ConstHeavy bool // prefer literals/constants (folding workloads)
 	Budget     int  // node budget of one program (0 = default)
 	WideOps    bool // n-ary operators with up to 24 operands now and then
+	CountOp    bool // a call-counting (non-idempotent) user operator is available
+	OddInts    bool // integer literals spelled with leading zeros or a plus sign
 }
 
 func DrawKnobs(r *Rng) Knobs {
@@ -57,6 +59,7 @@ func DrawKnobs(r *Rng) Knobs {
 		NoListEq:  true,
 		RootBool:  r.P(0.7),
 		WideOps:   r.P(0.1),
+		OddInts:   r.P(0.15),
 	}
 	if r.P(0.1) { // occasionally a deep, narrow or wide, shallow program
 		k.MaxDepth, k.MaxFan = 8, 2
@@ -175,6 +178,7 @@ func NewGen(r *Rng, k Knobs) *Gen {
 		if r.P(k.Stateless) {
 			sp.Stateless = true
 		}
+		sp.Mutates = r.P(0.2)
 		g.C.Ops = append(g.C.Ops, sp)
 		g.ob[ret] = append(g.ob[ret], len(g.C.Ops)-1)
 	}
@@ -182,7 +186,11 @@ func NewGen(r *Rng, k Knobs) *Gen {
 	// RegVarAndOp or a direct map write): built-ins take precedence, so it must
 	// never run. It is not offered to the program generator as a user operator.
 	if r.P(0.1) {
-		g.C.Ops = append(g.C.Ops, OpSpec{Name: PickS(r, []string{"add", "+", "eq", "=", "and", "version", "not", "in", ">"}), Kind: "pure", Ret: TInt, Arity: 2})
+		g.C.Ops = append(g.C.Ops, OpSpec{Name: PickS(r, []string{"add", "+", "eq", "=", "and", "version", "not", "in", ">", "mod", "between"}), Kind: "pure", Ret: TInt, Arity: 2, Stateless: r.P(0.5)})
+	}
+	if k.CountOp {
+		g.C.Ops = append(g.C.Ops, OpSpec{Name: "take_token", Kind: "count", Ret: TInt, Arity: r.Intn(2)})
+		g.ob[TInt] = append(g.ob[TInt], len(g.C.Ops)-1)
 	}
 	if k.FailOp {
 		g.C.Ops = append(g.C.Ops, OpSpec{Name: "cfail", Kind: "fail", Ret: TBool, Arity: r.Intn(3)})
@@ -358,6 +366,25 @@ func (g *Gen) Program() *Node {
 
 func (g *Gen) litOf(t Ty) *Node {
 	v := g.Value(t)
+	if t == TInt && g.K.OddInts && g.R.P(0.4) && v.I > -1000000 && v.I < 1000000 {
+		// decimal integer literals may carry leading zeros or an explicit sign
+		n := Lit(v)
+		a := v.I
+		sign := ""
+		if a < 0 {
+			sign, a = "-", -a
+		} else if g.R.P(0.3) {
+			sign = "+"
+		}
+		n.Raw = sign + []string{"0", "00", "000"}[g.R.Intn(3)] + strconv.FormatInt(a, 10)
+		if g.R.P(0.2) {
+			n.Raw = sign + strconv.FormatInt(a, 10)
+			if sign == "" {
+				n.Raw = ""
+			}
+		}
+		return n
+	}
 	if (t == TIntList || t == TStrList) && len(v.IL)+len(v.SL) == 0 {
 		return Lit(VSL(nil)) // "()" is the empty list of either element type
 	}
